@@ -879,6 +879,40 @@ func init() {
 			return true
 		},
 		"runtime.SetFinalizer": nop,
+		"strings.Join": func(ex *Exec, st *State, args []Value, in *ssa.Call, pos token.Pos) bool {
+			sl := args[0].(SliceV)
+			sep := args[1].(StringV)
+			if !sl.Len.IsConst() || !sl.Off.IsConst() || sep.Sym {
+				panic("strings.Join on a symbolic list")
+			}
+			var parts []string
+			if sl.Obj != 0 {
+				c := st.heap[sl.Obj].Val.(CellsV).C
+				for i := sl.Off.Val; i < sl.Off.Val+sl.Len.Val; i++ {
+					s := c[i].(StringV)
+					if s.Sym {
+						panic("strings.Join of symbolic strings")
+					}
+					parts = append(parts, s.S)
+				}
+			}
+			setRes(st, in, StringV{S: strings.Join(parts, sep.S)})
+			return true
+		},
+		"strings.Split": func(ex *Exec, st *State, args []Value, in *ssa.Call, pos token.Pos) bool {
+			s, sep := args[0].(StringV), args[1].(StringV)
+			if s.Sym || sep.Sym {
+				panic("strings.Split of a symbolic string")
+			}
+			parts := strings.Split(s.S, sep.S)
+			cells := make([]Value, len(parts))
+			for i, p := range parts {
+				cells[i] = StringV{S: p}
+			}
+			n := Const(64, uint64(len(parts)))
+			setRes(st, in, SliceV{ex.newObj(st, CellsV{cells}), Const(64, 0), n, n})
+			return true
+		},
 		"(*time.Ticker).Stop":  nop,
 		"(*time.Ticker).Reset": nop,
 		"time.Sleep": func(ex *Exec, st *State, args []Value, in *ssa.Call, pos token.Pos) bool {
@@ -969,6 +1003,20 @@ func init() {
 			return true
 		},
 		"strings.Contains": func(ex *Exec, st *State, args []Value, in *ssa.Call, pos token.Pos) bool {
+			a, b := args[0].(StringV), args[1].(StringV)
+			if !a.Sym && !b.Sym {
+				setRes(st, in, BoolC(strings.Contains(a.S, b.S)))
+				return true
+			}
+			if a.Sym && !b.Sym && len(b.S) == 1 {
+				// a bounded symbolic string contains a given byte
+				c := False
+				for i := 0; i < a.Max; i++ {
+					c = Or(c, And(Ult(Const(64, uint64(i)), a.Len), Eq(Select(a.Arr, Const(64, uint64(i))), Const(8, uint64(b.S[0])))))
+				}
+				setRes(st, in, c)
+				return true
+			}
 			setRes(st, in, ex.freshVar("contains", BoolSort))
 			return true
 		},
